@@ -193,4 +193,39 @@ theorem fmtRanges_noEOL (pref : Bytes) (rs : List (Int × Int)) (hp : noEOL pref
 theorem fmtRanges_head (pref : Bytes) (rs : List (Int × Int)) : ∃ t, fmtRanges pref rs = 40 :: t := by
   exact ⟨_, rfl⟩
 
+/-! ### the clipped ranges are ranges again -/
+
+/-- a proper range that overlaps a non-empty window `[a, b)` is clipped to a proper range inside
+`[0, b - a]` -/
+theorem clipRange_ok (a b : Int) (r : Int × Int) (hab : a < b) (hfit : b - a ≤ 9223372036854775807)
+    (hr : r.1 < r.2) (ho : Loc.rangeOverlap r.1 r.2 a b = true) : RangeOk (clipRange a b r) := by
+  have h1 : ¬ r.2 < r.1 := by omega
+  have h2 : ¬ b < a := by omega
+  simp only [Loc.rangeOverlap, if_neg h1, if_neg h2, Bool.and_eq_true, decide_eq_true_eq] at ho
+  simp only [RangeOk, clipRange, Loc.gmax, Loc.gmin]
+  refine ⟨?_, ?_, ?_⟩ <;> split <;> (try split) <;> omega
+
+/-- **what `Slice` writes into a reference re-parses**: for a non-empty window and an info that
+parses with some range overlapping the window, the new info is read back by `parseReferenceInfo`
+as exactly the clipped, re-based ranges -/
+theorem sliceRefInfo_reparse (pref info : Bytes) (a b : Int) (locs : List (Int × Int)) (hab : a < b)
+    (hfit : b - a ≤ 9223372036854775807) (hp : parseRefInfo pref info = some locs)
+    (hol : (locs.filter fun r => Loc.rangeOverlap r.1 r.2 a b) ≠ []) :
+    ∃ i, sliceRefInfo pref a b info = some i ∧
+      i = fmtRanges pref ((locs.filter fun r => Loc.rangeOverlap r.1 r.2 a b).map (clipRange a b)) ∧
+      parseRefInfo pref i = some ((locs.filter fun r => Loc.rangeOverlap r.1 r.2 a b).map (clipRange a b)) := by
+  have hne : (locs.filter fun r => Loc.rangeOverlap r.1 r.2 a b).isEmpty = false := by
+    cases h : locs.filter fun r => Loc.rangeOverlap r.1 r.2 a b with
+    | nil => exact absurd h hol
+    | cons _ _ => rfl
+  refine ⟨_, ?_, rfl, ?_⟩
+  · simp only [sliceRefInfo, hp, hne, Bool.false_eq_true, if_false]
+  · apply parseRefInfo_fmtRanges
+    · intro h
+      exact hol (List.map_eq_nil_iff.mp h)
+    · intro c hc
+      obtain ⟨r, hr, rfl⟩ := List.mem_map.mp hc
+      obtain ⟨hm, ho⟩ := List.mem_filter.mp hr
+      exact clipRange_ok a b r hab hfit (RefInfo.parseRefInfo_proper pref info locs hp r hm) ho
+
 end Gts.GbSliceRef
